@@ -64,7 +64,7 @@ func c15Config(which string) cfggen.Config {
 		c.PrefixDeny = []string{"10.9.0.0/16", "10.1.9.0/24"}
 	}
 	file := cfggen.FileAccounter()
-	cmds := []cfggen.Command{{Name: " show ", Match: []string{" version ", "system.* ", " (run|conf).*"}, Action: cfggen.ActionPermit}, {Name: "configure", Match: []string{"terminal "}, Action: cfggen.ActionDeny}, {Name: "*", Action: cfggen.ActionDeny}}
+	cmds := []cfggen.Command{{Name: " show ", Match: []string{"", " version ", "   ", "system.* ", " (run|conf).*"}, Action: cfggen.ActionPermit}, {Name: "configure", Match: []string{"terminal "}, Action: cfggen.ActionDeny}, {Name: "*", Action: cfggen.ActionDeny}}
 	svcs := []cfggen.Service{{Name: " shell ", SetValues: []cfggen.Value{{Name: "priv-lvl", Values: []string{" 15 "}, Optional: true}}}, {Name: "ppp", Match: []cfggen.Value{{Name: "protocol", Values: []string{"ip"}}}, SetValues: []cfggen.Value{{Name: "addr-pool", Values: []string{"p1"}}}}}
 	grp := cfggen.Group{Name: "noc", Commands: cmds, Services: svcs, Authenticator: cfggen.BcryptAuth("pw-alpha"), Accounter: file}
 	c.Users = []cfggen.User{
